@@ -29,6 +29,8 @@ def inputs(tier):
                           dists=(3.0,) if tier == 'quick' else (2.03, 3.0, 6.0), levels=('mid',) if tier == 'quick' else ('mid', 'deep')):
         out.append(dict(src='corpus', d=d))
     out.append(dict(src='corpus', d=corpus.pair_desc('CYS', 'CYS', 2.03, 'mid')))     # a disulfide: listing it must not make it titrate
+    # a buried histidine between an aspartate and a C-terminal carboxylate: the hydrogen bonds exist through the buried COO-HIS rule (KF-C14-1)
+    out.append(dict(src='corpus', d=corpus.cluster_desc(('ASP', 'HIS', 'C-'), 'line', 3.0, 'deep')))
     for d in corpus.clusters(tier)[:: (1 if tier == 'thorough' else 3)]:
         out.append(dict(src='corpus', d=d))
     for d in corpus.cutouts(tier, radius=9.0)[:: (1 if tier == 'thorough' else 2)]:
@@ -296,7 +298,9 @@ def run_case(case, ctx, acc):
                                 and not any(x[0] == pkey for x in g['dets']['sidechain'])):
                             acid, base = (g, p1) if g0['charge'] < 0 else (p1, g)
                             if acid['pka'] < base['pka'] - 0.01:
-                                v.append(('hbond-partner-lost/sidechain-I-acid-base', '%s lost its hydrogen bond with unlisted %s (default %r) although pKa(acid) %.2f < pKa(base) %.2f' % (
+                                # (a bond that exists in the default run only through the buried COO-HIS rule is a separate class)
+                                rule = ({g0['type'], p0['type']} == {'COO', 'HIS'} and abs(abs(val) - params.COO_HIS_exception) < 1e-9)
+                                v.append(('hbond-partner-lost/sidechain-I-acid-base' + ('/buried-coo-his-rule' if rule else ''), '%s lost its hydrogen bond with unlisted %s (default %r) although pKa(acid) %.2f < pKa(base) %.2f' % (
                                     k, pkey, val, acid['pka'], base['pka'])))
                     lost = [x for x in nside(g0, g0s) if x not in nside(g, gs)]
                     if lost:
